@@ -46,6 +46,7 @@ type FuncContract struct {
 	Like      []string
 	Opts      map[string]string
 	Used      bool
+	CallSites []*CallSiteClause
 }
 
 func (c *FuncContract) Key() string { return c.Pkg + "::" + c.Name }
@@ -83,7 +84,34 @@ type ChanInv struct {
 	Where    string
 }
 
+type FieldInv struct {
+	Pkg   string
+	Type  string // short type key of the struct, e.g. checkgroup.concurrentCheckgroup
+	Field string
+	Expr  *Spec // over "val"
+	Where string
+}
+
+type CallersOnly struct {
+	Pkg     string
+	Callee  string // key suffix, e.g. (*Config).MaxReadDepth
+	Allowed []string
+	Props   []string
+	Where   string
+}
+
+type CallSiteClause struct {
+	Callee string
+	Clause *Clause
+}
+
 type Contracts struct {
+	FieldInvs []*FieldInv
+	GlobalInvs []*FieldInv
+	Callers   []*CallersOnly
+	GhostVars map[string]string
+	GhostFields map[string]string
+	Unfolds   map[string]*SpecFunc
 	Funcs   map[string]*FuncContract
 	Specs   map[string]*SpecFunc  // key pkg::name and bare name fallback
 	Ghosts  map[string]*GhostFunc
@@ -94,7 +122,7 @@ type Contracts struct {
 }
 
 func NewContracts() *Contracts {
-	return &Contracts{Funcs: map[string]*FuncContract{}, Specs: map[string]*SpecFunc{}, Ghosts: map[string]*GhostFunc{}}
+	return &Contracts{Funcs: map[string]*FuncContract{}, Specs: map[string]*SpecFunc{}, Ghosts: map[string]*GhostFunc{}, GhostVars: map[string]string{}, GhostFields: map[string]string{}, Unfolds: map[string]*SpecFunc{}}
 }
 
 var clauseHead = regexp.MustCompile(`^(requires|ensures|invariant|decreases)(\[[A-Z0-9, ]+\])?\s+(?:([A-Za-z_][A-Za-z0-9_.\-]*):\s+)?(.*)$`)
@@ -145,6 +173,15 @@ func (cs *Contracts) LoadLines(pkg string, lines []string, wheres []string) erro
 		fields := strings.Fields(line)
 		head := fields[0]
 		rest := strings.TrimSpace(strings.TrimPrefix(line, head))
+		if strings.HasPrefix(head, "callers-only[") {
+			head = "callers-only"
+		}
+		for _, kw := range []string{"requires", "ensures"} {
+			if strings.HasPrefix(head, kw+"[") {
+				rest = strings.TrimSpace(strings.TrimPrefix(line, kw))
+				head = kw
+			}
+		}
 		switch head {
 		case "package":
 			pkg = rest
@@ -189,7 +226,13 @@ func (cs *Contracts) LoadLines(pkg string, lines []string, wheres []string) erro
 			if cur == nil {
 				return fmt.Errorf("%s: clause outside func block", where)
 			}
-			c, err := parseClause(head, rest, where)
+			var c *Clause
+			var err error
+			if strings.HasPrefix(rest, "[") {
+				c, err = parseClause(head+rest[:strings.Index(rest, "]")+1], strings.TrimSpace(rest[strings.Index(rest, "]")+1:]), where)
+			} else {
+				c, err = parseClause(head, rest, where)
+			}
 			if err != nil {
 				return err
 			}
@@ -285,6 +328,97 @@ func (cs *Contracts) LoadLines(pkg string, lines []string, wheres []string) erro
 				cs.Lemmas = append(cs.Lemmas, ax)
 			}
 			cur = nil
+		case "ghostvar":
+			if len(fields) != 3 {
+				return fmt.Errorf("%s: ghostvar <name> <int|bool>", where)
+			}
+			srt := "(Array Int Int)"
+			_ = srt
+			if fields[2] == "bool" {
+				cs.GhostVars[fields[1]] = "Bool"
+			} else {
+				cs.GhostVars[fields[1]] = "Int"
+			}
+			cur = nil
+		case "unfold":
+			// unfold name(p T) bool = expr : whenever name(x) is assumed, expr[p:=x] is assumed too
+			sf, err := parseSpecFunc(pkg, rest, where)
+			if err != nil {
+				return err
+			}
+			cs.Unfolds[sf.Name] = sf
+			cur = nil
+		case "ghostfield":
+			if len(fields) != 3 {
+				return fmt.Errorf("%s: ghostfield <name> <int|bool>", where)
+			}
+			if fields[2] == "bool" {
+				cs.GhostFields[fields[1]] = "Bool"
+			} else {
+				cs.GhostFields[fields[1]] = "Int"
+			}
+			cur = nil
+		case "globalinv":
+			idx := strings.Index(rest, ":")
+			if idx < 0 {
+				return fmt.Errorf("%s: globalinv needs a target", where)
+			}
+			e, err := ParseSpec(strings.TrimSpace(rest[idx+1:]))
+			if err != nil {
+				return fmt.Errorf("%s: %v", where, err)
+			}
+			cs.GlobalInvs = append(cs.GlobalInvs, &FieldInv{Pkg: pkg, Type: strings.TrimSpace(rest[:idx]), Expr: e, Where: where})
+			cur = nil
+		case "fieldinv":
+			// fieldinv <type>.<field>: expr over val
+			idx := strings.Index(rest, ":")
+			if idx < 0 {
+				return fmt.Errorf("%s: fieldinv needs a target", where)
+			}
+			tgt := strings.TrimSpace(rest[:idx])
+			dot := strings.LastIndex(tgt, ".")
+			e, err := ParseSpec(strings.TrimSpace(rest[idx+1:]))
+			if err != nil {
+				return fmt.Errorf("%s: %v", where, err)
+			}
+			cs.FieldInvs = append(cs.FieldInvs, &FieldInv{Pkg: pkg, Type: tgt[:dot], Field: tgt[dot+1:], Expr: e, Where: where})
+			cur = nil
+		case "callers-only":
+			// callers-only[C02] <callee-key> : f1, f2
+			m := regexp.MustCompile(`^(?:\[([A-Z0-9, ]+)\]\s*)?(.*?)\s*:\s*(.*)$`).FindStringSubmatch(strings.TrimSpace(strings.TrimPrefix(line, "callers-only")))
+			if m == nil {
+				return fmt.Errorf("%s: bad callers-only", where)
+			}
+			co := &CallersOnly{Pkg: pkg, Callee: m[2], Where: where}
+			for _, p := range strings.Split(m[1], ",") {
+				if p = strings.TrimSpace(p); p != "" {
+					co.Props = append(co.Props, p)
+				}
+			}
+			for _, a := range strings.Split(m[3], ",") {
+				if a = strings.TrimSpace(a); a != "" {
+					co.Allowed = append(co.Allowed, a)
+				}
+			}
+			cs.Callers = append(cs.Callers, co)
+			cur = nil
+		case "callsite":
+			// callsite <callee-name> requires[Cxx] label: expr
+			if cur == nil {
+				return fmt.Errorf("%s: callsite outside func block", where)
+			}
+			ix := strings.Index(rest, " requires")
+			if ix < 0 {
+				return fmt.Errorf("%s: callsite needs a requires clause", where)
+			}
+			callee := strings.TrimSpace(rest[:ix])
+			rr := strings.TrimSpace(rest[ix+1:])
+			f2 := strings.Fields(rr)
+			c, err := parseClause("requires"+strings.TrimPrefix(f2[0], "requires"), strings.TrimSpace(strings.TrimPrefix(rr, f2[0])), where)
+			if err != nil {
+				return err
+			}
+			cur.CallSites = append(cur.CallSites, &CallSiteClause{Callee: callee, Clause: c})
 		case "chaninv":
 			idx := strings.Index(rest, ":")
 			if idx < 0 {
